@@ -1,5 +1,5 @@
 """C05: pipelined responses are delivered in request order, one per request (end to end through the real squid)."""
-import base64, concurrent.futures, json, random, socket, threading, time
+import base64, concurrent.futures, json, os, random, socket, threading, time
 from vlib import std, lab, common
 
 PID = "C05"
@@ -253,7 +253,10 @@ def _one(args):
     parts = request_bytes(s, rids, urls)
     segs, _ = segments(parts, s["cuts"])
     methods = [r["m"] for r in s["reqs"]]
-    raw, closed = talk(sq.port, segs, len(methods), methods)
+    try:
+        raw, closed = talk(sq.port, segs, len(methods), methods)
+    except OSError as ex:
+        return "noconnect %s" % type(ex).__name__
     try:
         resps, rest = lab.parse_responses(raw, methods=methods, eof=closed)
     except Exception as ex:
@@ -306,13 +309,19 @@ def _one(args):
 def _ensure(L):
     if "sq" in _state and all(q.alive() for q in _state["sq"].values()):
         return
+    for q in _state.get("sq", {}).values():      # a crashed instance: make sure nothing is left of it
+        try:
+            q.stop()
+        except Exception:
+            pass
     _state["org"] = org = L.origin(hook=_hook)
     _state["sq"] = {}
     _state["pool_urls"] = {}
     _state.setdefault("n", 0)
+    _state["boots"] = boots = _state.get("boots", 0) + 1
 
     def boot(pf):
-        return pf, L.squid(extra_conf="pipeline_prefetch %d\n" % pf, name="vc05pf%dp%d" % (pf, __import__("os").getpid()))
+        return pf, L.squid(extra_conf="pipeline_prefetch %d\n" % pf, name="vc05b%dpf%dp%d" % (boots, pf, os.getpid()))
     with concurrent.futures.ThreadPoolExecutor(max_workers=len(PFS)) as ex:
         for pf, sq in ex.map(boot, PFS):
             _state["sq"][pf] = sq
